@@ -1284,8 +1284,11 @@ class Server(utils.EventEmitter):
         See Bluetooth spec Vol 3, Part F - 3.4.7.3 Handle Value Confirmation
         '''
         del confirmation  # Unused.
-        if (pending_confirmation := self.pending_confirmations[bearer]) is None:
-            # Not expected!
+        if (
+            pending_confirmation := self.pending_confirmations[bearer]
+        ) is None or pending_confirmation.done():
+            # Not expected! (no indication is pending, or it has been confirmed already
+            # and the task that sent it has not resumed yet)
             logger.warning(
                 '!!! unexpected confirmation, there is no pending indication'
             )
